@@ -26,6 +26,11 @@ fn main() {
         usage();
     }
     let id = args[1].clone();
+    if id == "__c19child" {
+        det::install_panic_hook(true);
+        let code = props::c19::child(args.get(2).map(|s| s.as_str()).unwrap_or(""));
+        std::process::exit(code);
+    }
     if id == "__padchild" {
         det::install_panic_hook(false);
         let code = props::pad::pad_child(&args[2], args[3].parse().unwrap_or(0));
@@ -92,6 +97,7 @@ fn main() {
         "C16" => props::c16::run(tier),
         "C17" => props::c17::run(tier),
         "C18" => props::c18::run(tier),
+        "C19" => props::c19::run(tier),
         _ => {
             eprintln!("unknown check {id}");
             2
